@@ -15,6 +15,7 @@ package main
 
 import (
 	"bytes"
+	"encoding/binary"
 	"fmt"
 	"math/rand"
 	"os"
@@ -90,6 +91,8 @@ type dut struct {
 	toGenesis                                       bool // a rollback to state id 0 happened
 	tailsDiverged                                   bool // the two history stores had different tails at some check
 	maxHead                                         int  // highest head id the case has reached
+	indexPruned                                     bool // the index pruner ran at least once
+	prunedState, prunedTrie                         int  // tails of the last index pruner runs
 	rollbacks                                       int
 }
 
@@ -301,6 +304,93 @@ func (d *dut) readState(st *statehist.State, id int, sr *pathdb.HistoricalStateR
 				d.r.Count("node_absent_refused", 1)
 			}
 		}
+	}
+}
+
+// endingAt counts the index metadata entries under the prefixes whose first index block ends
+// exactly at history id tail (the first 8 bytes of the metadata are the largest id of the
+// first block, see indexPruner.pruneEntry). Coverage counter only.
+func (d *dut) endingAt(tail int, prefixes ...[]byte) int {
+	n := 0
+	for _, p := range prefixes {
+		it := d.disk.NewIterator(p, nil)
+		for it.Next() {
+			if v := it.Value(); len(it.Key()) >= len(p)+32 && len(v) >= 8 && binary.BigEndian.Uint64(v[:8]) == uint64(tail) {
+				n++
+			}
+		}
+		it.Release()
+	}
+	return n
+}
+
+// pruneIndex lets the index pruner catch up with the tails of the history stores. In
+// production indexer.prune(newFirst) is signalled after every tail truncation, but the
+// background loop calls indexPruner.process(tail) only once 90000 histories were truncated
+// since its last run (unexported constant), which never happens at this scale. The harness
+// issues the very same call (a pruner over the same key-value store, process(first retained
+// history id)) while the database is idle: no flush, no indexing, no other reader. Right
+// after it every touched account and slot (trie node position) is read at the oldest root
+// retained by the state (trienode) store: its first needed history is exactly the pruner's
+// tail, and an element last modified by that history has an index block ending exactly there.
+func (d *dut) pruneIndex(ctx string) {
+	if first, last, ok := d.historyWindow(); ok && first > 1 && first > d.prunedState && first <= last && first-1 < len(d.chain) {
+		ending := d.endingAt(first, rawdb.StateHistoryAccountMetadataPrefix, rawdb.StateHistoryStorageMetadataPrefix)
+		if err := pathdb.VerifPruneIndex(d.disk, false, uint64(first)); err != nil {
+			d.viol("index-pruner-failed:state", fmt.Sprintf("%s: indexPruner.process(%d): %v", ctx, first, err))
+			return
+		}
+		d.prunedState = first
+		d.indexPruned = true
+		d.logf("prune state index, tail %d", first)
+		d.r.Count("index_pruner_runs", 1)
+		d.r.Count("index_pruner_runs_state", 1)
+		d.r.Count("elements_with_block_ending_at_tail", ending)
+		st := d.chain[first-1]
+		where := fmt.Sprintf("%s: oldest retained root, canonical id %d (state histories %d..%d, index pruned with tail %d, %d elements whose first index block ended at the tail)", ctx, first-1, first, last, first, ending)
+		sr, err := d.db.HistoricReader(st.Root)
+		if err != nil {
+			d.viol("retained-root-refused:state", fmt.Sprintf("%s: HistoricReader refused a retained root: %v", where, err))
+			return
+		}
+		d.readState(st, first-1, sr, nil, 256, true, where)
+		if d.bad {
+			return
+		}
+		d.r.Count("reads_at_oldest_retained_root_after_prune", len(d.h.TouchedAccounts())+len(d.h.TouchedSlots()))
+	}
+	if d.cfg.TrieHist < 0 {
+		return
+	}
+	f, l, on, err := d.db.VerifTrienodeHistoryWindow()
+	if err != nil || !on {
+		return // reported by checkAll
+	}
+	if first, last := int(f), int(l); first > 1 && first > d.prunedTrie && first <= last && first-1 < len(d.chain) {
+		ending := d.endingAt(first, rawdb.TrienodeHistoryMetadataPrefix)
+		if err := pathdb.VerifPruneIndex(d.disk, true, uint64(first)); err != nil {
+			d.viol("index-pruner-failed:trienode", fmt.Sprintf("%s: indexPruner.process(%d): %v", ctx, first, err))
+			return
+		}
+		d.prunedTrie = first
+		d.indexPruned = true
+		d.logf("prune trienode index, tail %d", first)
+		d.r.Count("index_pruner_runs", 1)
+		d.r.Count("index_pruner_runs_trienode", 1)
+		d.r.Count("elements_with_block_ending_at_tail", ending)
+		d.r.Count("trienode_elements_with_block_ending_at_tail", ending)
+		st := d.chain[first-1]
+		where := fmt.Sprintf("%s: oldest retained root, canonical id %d (trienode histories %d..%d, index pruned with tail %d, %d elements whose first index block ended at the tail)", ctx, first-1, first, last, first, ending)
+		nr, err := d.db.HistoricNodeReader(st.Root)
+		if err != nil {
+			d.viol("retained-root-refused:trienode", fmt.Sprintf("%s: HistoricNodeReader refused a retained root: %v", where, err))
+			return
+		}
+		d.readState(st, first-1, nil, nr, 256, true, where)
+		if d.bad {
+			return
+		}
+		d.r.Count("reads_at_oldest_retained_root_after_prune", len(d.h.TouchedNodes()))
 	}
 }
 
@@ -735,6 +825,13 @@ func historyCase(r *vrt.Run, idx, maxLayers int) {
 		if !d.waitIndexed() {
 			return
 		}
+		if rng.Intn(3) != 0 {
+			// the index pruner catches up with the history tail before the reads of this round
+			d.pruneIndex(fmt.Sprintf("round %d after index pruning", round))
+			if d.bad {
+				return
+			}
+		}
 		d.useHeld(fmt.Sprintf("round %d after extension", round))
 		d.checkAll(frac, fmt.Sprintf("round %d", round))
 		if d.bad {
@@ -762,7 +859,7 @@ func historyCase(r *vrt.Run, idx, maxLayers int) {
 	if d.bad {
 		return
 	}
-	r.Eval(fmt.Sprintf("max%d/hist%d/trie%v/cp%d/raw%v/async%v/buf%v/pruned%v/rb%v/reopen%v/backlog%v/held%v/tdiv%v", cfg.Max, cfg.Hist, cfg.TrieHist >= 0, cfg.Checkpoint, cfg.RawKeys, cfg.Async, cfg.Buffer > 0, d.pruned, d.rolledBack, d.reopened, d.backlog, d.heldUsed, d.tailsDiverged))
+	r.Eval(fmt.Sprintf("max%d/hist%d/trie%v/cp%d/raw%v/async%v/buf%v/pruned%v/rb%v/reopen%v/backlog%v/held%v/tdiv%v/ipruned%v", cfg.Max, cfg.Hist, cfg.TrieHist >= 0, cfg.Checkpoint, cfg.RawKeys, cfg.Async, cfg.Buffer > 0, d.pruned, d.rolledBack, d.reopened, d.backlog, d.heldUsed, d.tailsDiverged, d.indexPruned))
 	r.Count("histories", 1)
 	if d.pruned {
 		r.Count("histories_pruned", 1)
@@ -835,7 +932,7 @@ func concurrentReaders(d *dut) func() {
 
 func run(r *vrt.Run) {
 	log.SetDefault(log.NewLogger(log.DiscardHandler()))
-	r.Rule("one history = private memorydb+freezer pathdb with EnableStateIndexing/NoHistoryIndexDelay, random config (maxDiffLayers 1/2/4, write buffer 0..8KiB, sync/async flush, state history limit 0/8/32, trienode history off or same limit with full-value checkpoint 1/4/16, raw or hashed storage keys, optional backlog of 5-44 unindexed histories indexed after a reopen); 3-7 rounds of {extend 3-100 statehist transitions with concurrent readers, optional Commit, classify HistoricReader/HistoricNodeReader for every canonical id and 25% (thorough: all) of the touched accounts/slots/node positions, then rollback by 1-20 via Recover followed by a different fork, or reopen}; readers held across extension/rollback are re-read. signature = (config classes, pruned, rolled back, reopened, backlog, held readers used, tails of the two history stores diverged)")
+	r.Rule("one history = private memorydb+freezer pathdb with EnableStateIndexing/NoHistoryIndexDelay, random config (maxDiffLayers 1/2/4, write buffer 0..8KiB, sync/async flush, state history limit 0/8/32, trienode history off or same limit with full-value checkpoint 1/4/16, raw or hashed storage keys, optional backlog of 5-44 unindexed histories indexed after a reopen); 3-7 rounds of {extend 3-100 statehist transitions with concurrent readers, optional Commit, classify HistoricReader/HistoricNodeReader for every canonical id and 25% (thorough: all) of the touched accounts/slots/node positions, in 2/3 of the rounds the index pruner is first run for the current history tails and every touched key is read at the oldest retained root; then rollback by 1-20 via Recover followed by a different fork, or reopen}; readers held across extension/rollback are re-read. signature = (config classes, pruned, rolled back, reopened, backlog, held readers used, tails of the two history stores diverged, index pruner ran)")
 	groups := []int{1, 2, 4}
 	per := r.N(20, 1000)
 	if r.Race() {
@@ -862,6 +959,9 @@ func run(r *vrt.Run) {
 	r.Require("reopens", 5)
 	r.Require("held_readers_used", 5)
 	r.Require("pruned_roots_probed", 20)
+	r.Require("index_pruner_runs", 5)
+	r.Require("reads_at_oldest_retained_root_after_prune", 200)
+	r.Require("elements_with_block_ending_at_tail", 5)
 	r.Assume("statehist/refmpt ground truth; block number passed to Update equals the state id so that HistoryRange() yields history ids; trienode and state history use the same retention limit; each reader kind is classified by the window of its own freezer (the tails may differ by the timing-dependent skip of a tail truncation), and each window must keep at least the configured number of newest histories")
 	r.Assume("Recover itself is judged by C17; a failing Recover ends the case")
 }
